@@ -194,21 +194,25 @@ func payload(nonce uint32, ch, dir, sender, seq, size int) []byte {
 	if x == 0 {
 		x = 1
 	}
-	run := 0
-	var rb byte
-	for i := range b {
-		if run > 0 {
-			b[i] = rb
-			run--
-			continue
-		}
+	i := 0
+	for i < size {
 		x ^= x << 13
 		x ^= x >> 7
 		x ^= x << 17
+		if size-i >= 8 && byte(x>>40) >= 24 {
+			binary.LittleEndian.PutUint64(b[i:], x)
+			i += 8
+			continue
+		}
 		b[i] = byte(x >> 24)
-		if byte(x>>40) < 24 { // start a run of repeated bytes: compressible stretches
-			run = int(byte(x>>48)) % 97
-			rb = b[i]
+		i++
+		if byte(x>>40) < 24 { // a run of repeated bytes: compressible stretches
+			run := int(byte(x>>48)) % 97
+			rb := b[i-1]
+			for ; run > 0 && i < size; run-- {
+				b[i] = rb
+				i++
+			}
 		}
 	}
 	if size >= hdrSize {
